@@ -13,6 +13,7 @@ enum Piece {
     Dec(String, String),
     Kw(String, String),
     Quoted(String),
+    Unknown(String),
 }
 
 struct Ctx {
@@ -237,6 +238,7 @@ fn coq_piece(p: &Piece) -> String {
         Piece::Dec(v, c) => format!("PDec {} {}", coq_str(v), coq_str(c)),
         Piece::Kw(t, v) => format!("PKw {} {}", coq_str(t), coq_str(v)),
         Piece::Quoted(v) => format!("PQuoted {}", coq_str(v)),
+        Piece::Unknown(w) => format!("PUnknown {}", coq_str(w)),
     }
 }
 fn coq_pieces(ps: &[Piece]) -> String {
@@ -437,7 +439,12 @@ pub fn translate(repo: &Path) -> Output {
                                 };
                                 match (body(&mut cx, &f.block, &whr), ret) {
                                     (Some((pieces, next)), Some((rty, rst))) => ctors.push(Ctor { name: f.sig.ident.to_string(), params: value_params(&f.sig), pieces, ty: rty, state: rst, next }),
-                                    _ => cx.problems.push(format!("{}: body not recognised", whr)),
+                                    (None, Some((rty, rst))) => {
+                                        // the signature is enough for the harness wrapper; the Coq side sees an unknown piece
+                                        cx.problems.push(format!("{}: body not recognised", whr));
+                                        ctors.push(Ctor { name: f.sig.ident.to_string(), params: value_params(&f.sig), pieces: vec![Piece::Unknown(whr.clone())], ty: rty, state: rst, next: String::new() });
+                                    }
+                                    _ => cx.problems.push(format!("{}: signature not recognised", whr)),
                                 }
                             }
                         }
@@ -459,6 +466,10 @@ pub fn translate(repo: &Path) -> Output {
                                 match (takes_self, body(&mut cx, &f.block, &whr), ret) {
                                     (true, Some((pieces, _)), Some((rty, rst))) if rty == ty => {
                                         trans.push(Trans { ty: ty.clone(), from: st.clone(), meth: f.sig.ident.to_string(), params: value_params(&f.sig), pieces, to: rst })
+                                    }
+                                    (true, None, Some((rty, rst))) if rty == ty => {
+                                        cx.problems.push(format!("{}: body not recognised", whr));
+                                        trans.push(Trans { ty: ty.clone(), from: st.clone(), meth: f.sig.ident.to_string(), params: value_params(&f.sig), pieces: vec![Piece::Unknown(whr.clone())], to: rst })
                                     }
                                     _ => cx.problems.push(format!("{}: method not recognised", whr)),
                                 }
@@ -482,6 +493,8 @@ pub fn translate(repo: &Path) -> Output {
                                     if let Some((pieces, next)) = body(&mut cx, &f.block, &whr) {
                                         finals.push(Final { ty: ty.clone(), state: st.clone(), pieces, next });
                                         done = true;
+                                    } else {
+                                        finals.push(Final { ty: ty.clone(), state: st.clone(), pieces: vec![Piece::Unknown(whr.clone())], next: String::new() });
                                     }
                                 }
                             }
@@ -496,6 +509,11 @@ pub fn translate(repo: &Path) -> Output {
             _ => {}
         }
     }
+
+    // canonical order: a reordering of impl blocks or methods is not a change
+    ctors.sort_by(|a, b| a.name.cmp(&b.name));
+    trans.sort_by(|a, b| (&a.ty, &a.from, &a.meth).cmp(&(&b.ty, &b.from, &b.meth)));
+    finals.sort_by(|a, b| (&a.ty, &a.state).cmp(&(&b.ty, &b.state)));
 
     // ---------------- Coq
     let mut coq = String::from("(* GENERATED by tools/rs2coq from imap-proto/src/builders/command.rs. *)\nFrom TI Require Import Bytes Builders Machine.\nLocal Open Scope string_scope.\nLocal Open Scope N_scope.\nLocal Open Scope list_scope.\n\n");
